@@ -15,4 +15,4 @@ one(){
   echo "$sid: $(tail -1 $d/validation.log)"
 }
 export -f one
-ls /verif/seeded | grep -E '^C[0-9]+[A-J]$' | xargs -P "$PAR" -I{} bash -c 'one {}'
+ls /verif/seeded | grep -E '^C[0-9]+[A-Z]$' | xargs -P "$PAR" -I{} bash -c 'one {}'
